@@ -8,7 +8,7 @@ CACHE_SIZE_LOW_WATERMARK are derived as in conf.py:300-304 (checked syntacticall
 """
 import ast
 
-from pyvc.runner import Unit, Property, Syntactic
+from pyvc.runner import Unit, Property, Syntactic, Bounded
 from . import cache_units as CU
 
 
@@ -63,6 +63,11 @@ def build():
                          'conf.py derives LOW/HARD from MAX_CACHE_SIZE exactly as the harness assumes'),
                Syntactic('C10/events/wiring', events_wiring,
                          'events.py default handlers are the effects the harness gives the events')],
+    bounded=[Bounded('C10/native/cache_contracts_cross_check', 'replay/cache_native.py',
+                     ['--sweep', '3', 'bound,refuse_signal,refuse_only_without_room,refuse_frame,refuse_frame_others,update_when_full'],
+                     ['--sweep', '4', 'bound,refuse_signal,refuse_only_without_room,refuse_frame,refuse_frame_others,update_when_full'],
+                     'every sequential store/drain history of length <= 3 (quick) / 4 (thorough) over 2 metrics x 2 timestamps, MAX_CACHE_SIZE in {1,2,3,inf}, flow control on/off, all seven strategy settings',
+                     "cross-check of the contracts' clauses on the real code by exhaustive short histories (it also stands in when the symbolic engine cannot process a changed function); the clauses themselves are discharged obligations above")],
     trusted_base=['A-ENGINE', 'A-SMT', 'A-GIL', 'A-LIB(dict/defaultdict/deque models)'],
     assumptions=[
       "store() runs on the reactor thread only; its whole body after the tuple unpack is one lock region, so the bound holds whenever the lock is free and pop() (verified in C02) only lowers size",
